@@ -5,6 +5,27 @@ open Vio
 
 let nats_eq (a : nat list) (b : nat list) = (List.map int_of_nat a) = (List.map int_of_nat b)
 
+
+(* ---------- factored vectors: parsing + an independent flat evaluator (plain ints / Q) ---------- *)
+let read_bf c = let tag = next_nats c in let vals = next_qs c in { bfTag = tag; bfVals = vals }
+let read_fv c = next_list c read_bf
+let il = List.map int_of_nat
+let o_digits (sp : int list) (i : int) : int array =
+  let r = ref i in Array.of_list (List.map (fun s -> let d = !r mod s in r := !r / s; d) sp)
+let o_bf_value (sp : int array) (b : bf) (x : int array) : q =
+  let idx = ref 0 and mult = ref 1 in
+  List.iter (fun k -> idx := !idx + !mult * x.(k); mult := !mult * sp.(k)) (il b.bfTag);
+  (match List.nth_opt b.bfVals !idx with Some v -> v | None -> failwith "o_bf_value: index out of range")
+let o_flat sp (fv : bf list) x = List.fold_left (fun a b -> q_add a (o_bf_value sp b x)) q_zero fv
+let qs_eq a b = List.length a = List.length b && List.for_all2 q_eq a b
+let bf_eq (a : bf) (b : bf) = nats_eq a.bfTag b.bfTag && qs_eq a.bfVals b.bfVals
+let fv_eq a b = List.length a = List.length b && List.for_all2 bf_eq a b
+let str_fv (fv : bf list) = String.concat " | " (List.map (fun b -> "[" ^ str_nats b.bfTag ^ "] " ^ str_qs b.bfVals) fv)
+let all_assignments (space : nat list) : int array list =
+  let sp = il space in
+  let n = List.fold_left ( * ) 1 sp in
+  List.init n (fun i -> o_digits sp i)
+
 let judge _id (c : cursor) (r : cursor) : bool * string =
   let kind = next c in
   match kind with
@@ -46,6 +67,376 @@ let judge _id (c : cursor) (r : cursor) : bool * string =
     if int_of_nat (toIndexPartial keys space f) <> int_of_nat i_id then disagree "toIndexPartial" "toIndexPartial" "differ";
     if not (nats_eq (toFactorsPartial keys space i_id) i_back) then disagree "toFactorsPartial" "toFactorsPartial" "differ";
     (List.length keys > 1, "pfac")
+  | "enum" | "enumall" | "enumskip" | "enumskipall" ->
+    let space = next_nats c in
+    let (e, keys0) =
+      (match kind with
+       | "enum" -> let keys = next_nats c in (Some (pfe_keys space keys), keys)
+       | "enumall" -> (Some (pfe_all space), [])
+       | "enumskip" -> let keys = next_nats c in let skip = next_nat c in let missing = next_int c <> 0 in
+         (pfe_skip space keys skip missing, keys)
+       | _ -> let skip = next_nat c in (Some (pfe_skip_all space skip), [])) in
+    ignore keys0;
+    let i_skip = next_int r in let i_size = next_int r in let i_keys = next_nats r in
+    let i_seen = next_list r next_nats in
+    let i_rvalid = next_int r in let i_rvals = next_nats r in
+    (* O: independent mixed-radix oracle on the implementation's own output *)
+    let sp = Array.of_list (List.map int_of_nat space) in
+    let ks = List.map int_of_nat i_keys in
+    let nk = List.length ks in
+    let expected_count = if nk = 0 then 0 else
+        List.fold_left ( * ) 1 (List.mapi (fun p k -> if p = i_skip then 1 else sp.(k)) ks) in
+    if i_size <> expected_count then oracle_fail "enumerator_visits_each_once_in_order" "PartialFactorsEnumerator::size" (Printf.sprintf "size %d expected %d" i_size expected_count);
+    if List.length i_seen <> expected_count then oracle_fail "enumerator_visits_each_once_in_order" "PartialFactorsEnumerator::advance" (Printf.sprintf "visited %d expected %d" (List.length i_seen) expected_count);
+    List.iteri (fun i v ->
+        let v = List.map int_of_nat v in
+        if List.length v <> nk then oracle_fail "enumerator_visits_each_once_in_order" "PartialFactorsEnumerator::advance" "wrong length";
+        (* decode: digits of i over the non-skipped keys, lowest first *)
+        let rem = ref i in
+        List.iteri (fun p k ->
+            let x = List.nth v p in
+            if p = i_skip then (if x <> 0 then oracle_fail "enumerator_visits_each_once_in_order" "PartialFactorsEnumerator::advance" "skipped factor not held at 0")
+            else begin
+              if x <> !rem mod sp.(k) then oracle_fail "enumerator_visits_each_once_in_order" "PartialFactorsEnumerator::advance" (Printf.sprintf "element %d is not the mixed-radix expansion of %d" i i);
+              rem := !rem / sp.(k)
+            end) ks) i_seen;
+    if expected_count > 0 && (i_rvalid <> 1 || List.exists (fun x -> int_of_nat x <> 0) i_rvals || List.length i_rvals <> nk) then
+      oracle_fail "enumerator_visits_each_once_in_order" "PartialFactorsEnumerator::reset" "reset does not return to the first element";
+    (* C *)
+    (match e with
+     | None -> (false, kind ^ "_uninit")
+     | Some e ->
+       if int_of_nat e.pfeSkip <> i_skip then disagree "pfe_ctor" "PartialFactorsEnumerator" "skip id differs";
+       if not (nats_eq e.pfeKeys i_keys) then disagree "pfe_ctor" "PartialFactorsEnumerator" "keys differ";
+       if int_of_nat (pfe_size e) <> i_size then disagree "pfe_size" "PartialFactorsEnumerator::size" "differ";
+       (match pfe_visit (nat_of_int (i_size + 5)) e with
+        | None -> disagree "pfe_visit" "PartialFactorsEnumerator::advance" "model out of fuel"
+        | Some l ->
+          if List.length l <> List.length i_seen || not (List.for_all2 nats_eq l i_seen) then
+            disagree "pfe_visit" "PartialFactorsEnumerator::advance" "visited sequences differ";
+          let spec = List.init (int_of_nat (enum_count space e.pfeKeys e.pfeSkip)) (fun i -> enum_nth space e.pfeKeys e.pfeSkip (nat_of_int i)) in
+          if List.length l <> List.length spec || not (List.for_all2 nats_eq l spec) then
+            disagree "enumerator_visits_each_once_in_order" "model" "model differs from its spec");
+       (expected_count > 1, kind))
+  | "ienum" | "ienumall" ->
+    let space = next_nats c in
+    let (e, keys, fixed, v, missing) =
+      if kind = "ienum" then
+        let keys = next_nats c in let fixed = next_nat c in let v = next_nat c in let missing = next_int c <> 0 in
+        (pie_make space keys fixed v missing, keys, fixed, v, missing)
+      else
+        let fixed = next_nat c in let v = next_nat c in
+        (pie_make_all space fixed v, List.init (List.length space) nat_of_int, fixed, v, false) in
+    let i_seen = next_nats r in
+    (* O: the indices, in the enumeration order of the keys (with the fixed factor inserted in
+       sorted position when missing), whose digit for the fixed factor equals v *)
+    let sp = Array.of_list (List.map int_of_nat space) in
+    let ks = List.map int_of_nat keys in
+    let fx = int_of_nat fixed in
+    let ks = if missing then List.sort compare (fx :: ks) else ks in
+    let total = List.fold_left (fun a k -> a * sp.(k)) 1 ks in
+    let digit_of i = let rem = ref i and d = ref (-1) in
+      List.iter (fun k -> if k = fx then d := !rem mod sp.(k); rem := !rem / sp.(k)) ks; !d in
+    let expected = List.filter (fun i -> digit_of i = int_of_nat v) (List.init total (fun i -> i)) in
+    if List.map int_of_nat i_seen <> expected then oracle_fail "index_enumerator_spec" "PartialIndexEnumerator" ("visited " ^ str_nats i_seen);
+    (match pie_visit (nat_of_int (total + 5)) e with
+     | None -> disagree "pie_visit" "PartialIndexEnumerator" "model out of fuel"
+     | Some l -> if not (nats_eq l i_seen) then disagree "pie_visit" "PartialIndexEnumerator" ("model " ^ str_nats l ^ " impl " ^ str_nats i_seen));
+    (List.length expected > 1, kind)
+  | "merge" ->
+    let lk = next_nats c in let lv = next_nats c in let rk = next_nats c in let rv = next_nats c in
+    let i_mk = next_nats r in let i_mv = next_nats r in let i_vals = next_nats r in
+    let i_keys = next_nats r in
+    let i_matches = next_list r (fun r -> let a = next_int r in let b = next_int r in (a, b)) in
+    let i_keys2 = next_nats r in
+    (* O: sorted union of the keys; value from rhs on common keys, else from the owner *)
+    let il = List.map int_of_nat in
+    let union = List.sort_uniq compare (il lk @ il rk) in
+    if il i_keys <> union || il i_mk <> union || il i_keys2 <> union then oracle_fail "merge_is_sorted_union" "merge" "keys are not the sorted union";
+    let value k = (try List.assoc k (List.combine (il rk) (il rv)) with Not_found -> List.assoc k (List.combine (il lk) (il lv))) in
+    if il i_mv <> List.map value union || il i_vals <> List.map value union then oracle_fail "merge_is_sorted_union" "merge" "values do not follow the keys";
+    let exp_matches = List.filter_map (fun k ->
+        let idx l = let rec go i = function [] -> None | x :: t -> if x = k then Some i else go (i + 1) t in go 0 l in
+        match idx (il lk), idx (il rk) with Some a, Some b -> Some (a, b) | _ -> None) union in
+    if i_matches <> exp_matches then oracle_fail "merge_is_sorted_union" "merge" "matches are not the common key positions";
+    let (mk, mv) = merge_pf lk lv rk rv in
+    if not (nats_eq mk i_mk && nats_eq mv i_mv) then disagree "merge_pf" "merge" "differ";
+    if not (nats_eq (merge_vals lk lv rk rv) i_vals) then disagree "merge_vals" "merge" "differ";
+    let (k2, ms) = merge_keys_matches lk rk in
+    if not (nats_eq k2 i_keys) then disagree "merge_keys" "merge" "differ";
+    if List.map (fun (a, b) -> (int_of_nat a, int_of_nat b)) ms <> i_matches then disagree "merge_keys_matches" "merge" "differ";
+    (i_matches <> [] && List.length union > List.length lk, "merge")
+  | "rmf" ->
+    let k = next_nats c in let v = next_nats c in let f = next_nat c in
+    let i_k = next_nats r in let i_v = next_nats r in
+    let il = List.map int_of_nat in
+    let pairs = List.filter (fun (a, _) -> a <> int_of_nat f) (List.combine (il k) (il v)) in
+    if List.combine (il i_k) (il i_v) <> pairs then oracle_fail "removeFactor_spec" "removeFactor" "not the input minus the factor";
+    let (mk, mv) = removeFactor k v f in
+    if not (nats_eq mk i_k && nats_eq mv i_v) then disagree "removeFactor" "removeFactor" "differ";
+    (List.length i_k < List.length k, "rmf")
+  | "match" ->
+    let lk = next_nats c in let lv = next_nats c in let rk = next_nats c in let rv = next_nats c in
+    let i_a = next_int r in let i_b = next_int r in
+    let il = List.map int_of_nat in
+    let l = List.combine (il lk) (il lv) and rr = List.combine (il rk) (il rv) in
+    let expected = List.for_all (fun (k, v) -> match List.assoc_opt k rr with Some v' -> v = v' | None -> true) l in
+    if (i_a <> 0) <> expected || (i_b <> 0) <> expected then oracle_fail "match_spec" "match" "common factors compared wrongly";
+    (match match_pf lk lv rk rv with
+     | Some b -> if b <> expected then disagree "match_pf" "match" "differ"
+     | None -> ());
+    (not expected, "match")
+  | "matchf" ->
+    let lhs = next_nats c in let rk = next_nats c in let rv = next_nats c in
+    let i_a = next_int r in
+    let il = List.map int_of_nat in
+    let expected = List.for_all2 (fun k v -> List.nth (il lhs) k = v) (il rk) (il rv) in
+    if (i_a <> 0) <> expected then oracle_fail "match_spec" "match" "Factors vs PartialFactors compared wrongly";
+    if match_f_pf lhs rk rv <> expected then disagree "match_f_pf" "match" "differ";
+    (not expected, "matchf")
+  | "matchk" ->
+    let k = next_nats c in let lhs = next_nats c in let rhs = next_nats c in
+    let i_a = next_int r in
+    let il = List.map int_of_nat in
+    let expected = List.for_all (fun k -> List.nth (il lhs) k = List.nth (il rhs) k) (il k) in
+    if (i_a <> 0) <> expected then oracle_fail "match_spec" "match" "keys compared wrongly";
+    if match_keys k lhs rhs <> expected then disagree "match_keys" "match" "differ";
+    (not expected, "matchk")
+  | "matchp" ->
+    let lk = next_nats c in let rk = next_nats c in let lhs = next_nats c in let rhs = next_nats c in
+    let i_a = next_int r in
+    let (_, ms) = merge_keys_matches lk rk in
+    if match_pairs ms lhs rhs <> (i_a <> 0) then disagree "match_pairs" "match" "differ";
+    (ms <> [], "matchp")
+  | "chk" ->
+    let space = next_nats c in let tag = next_nats c in
+    let i_e = next_int r in let i_p = next_int r in
+    let il = List.map int_of_nat in
+    let n = List.length space in
+    let t = il tag in
+    let rec strictly = function a :: (b :: _ as tl) -> a < b && strictly tl | _ -> true in
+    let valid = t <> [] && List.length t <= n && List.for_all (fun x -> x < n) t && strictly t in
+    if (i_e = 0) <> valid then oracle_fail "checkTag_spec" "checkTag" "accepts exactly the non-empty strictly sorted in-range tags";
+    let (me, mp) = checkTag space tag in
+    let code = (match me with TENone -> 0 | TENoElements -> 1 | TETooManyElements -> 2 | TEIdTooHigh -> 3 | TENotSorted -> 4 | TEDuplicates -> 5) in
+    if code <> i_e || int_of_nat mp <> i_p then disagree "checkTag" "checkTag" (Printf.sprintf "model (%d,%d) impl (%d,%d)" code (int_of_nat mp) i_e i_p);
+    (i_e <> 0, "chk")
+  | "kpf" ->
+    let ids = next_nats c in let space = next_nats c in let pk = next_nats c in let pv = next_nats c in
+    let i_a = next_int r in let i_b = next_int r in
+    (match toIndexPartialKPF ids space pk pv with
+     | Some m -> if int_of_nat m <> i_a then disagree "toIndexPartialKPF" "toIndexPartial" "differ"
+     | None -> disagree "toIndexPartialKPF" "toIndexPartial" "generator precondition: ids must be a subsequence of the keys");
+    if int_of_nat (toIndexPF space pk pv) <> i_b then disagree "toIndexPF" "toIndex" (Printf.sprintf "model %d impl %d" (int_of_nat (toIndexPF space pk pv)) i_b);
+    (List.length ids > 1, "kpf")
+  | "iskip" ->
+    let ids = next_nats c in let space = next_nats c in let f = next_nats c in let m = next_nat c in
+    let i_a = next_int r in let i_b = next_int r in
+    let (a, b) = toIndexPartialAndSkip ids space f m in
+    if int_of_nat a <> i_a || int_of_nat b <> i_b then disagree "toIndexPartialAndSkip" "toIndexPartialAndSkip" "differ";
+    (List.length ids > 1, "iskip")
+  | "bfop" ->
+    let op = next c in let space = next_nats c in let l = read_bf c in let rr = read_bf c in
+    let i_tag = next_nats r in let i_alloc = next_int r in let i_vals = next_qs r in
+    let ires = { bfTag = i_tag; bfVals = i_vals } in
+    let sp = Array.of_list (il space) in
+    let (f, clause, m) = (match op with
+        | "plus" -> (q_add, "plus_flat", bf_plus space l rr)
+        | "minus" -> (q_sub, "minus_flat", bf_minus space l rr)
+        | _ -> (q_mul, "dot_flat", bf_dot space l rr)) in
+    List.iter (fun x ->
+        let expect = f (o_bf_value sp l x) (o_bf_value sp rr x) in
+        let got = (try o_bf_value sp ires x with Failure _ -> oracle_fail clause op "result has too few values") in
+        if not (q_eq got expect) then oracle_fail clause op ("value " ^ string_of_q got ^ " expected " ^ string_of_q expect)) (all_assignments space);
+    if not (bf_eq m ires) then disagree "bf_binop" op ("model " ^ str_fv [m] ^ " impl " ^ str_fv [ires]);
+    if int_of_nat (bf_binop_alloc space l rr) <> i_alloc then disagree "bf_binop_alloc" op (Printf.sprintf "allocated %d" i_alloc);
+    (List.length i_tag > List.length l.bfTag && List.length i_tag > List.length rr.bfTag, "bfop_" ^ op)
+  | "subop" ->
+    let op = next c in let space = next_nats c in let l = read_bf c in let rr = read_bf c in
+    let ires = read_bf r in
+    let sp = Array.of_list (il space) in
+    let (f, clause, m) = (match op with
+        | "plus" -> (q_add, "plus_flat", plusEqualSubset space l rr)
+        | _ -> (q_sub, "minus_flat", minusEqualSubset space l rr)) in
+    List.iter (fun x ->
+        let expect = f (o_bf_value sp l x) (o_bf_value sp rr x) in
+        if not (q_eq (o_bf_value sp ires x) expect) then oracle_fail clause (op ^ "EqualSubset") "value differs from the flat operation") (all_assignments space);
+    if not (bf_eq m ires) then disagree "subset_op" (op ^ "EqualSubset") ("model " ^ str_fv [m] ^ " impl " ^ str_fv [ires]);
+    (List.length l.bfTag > List.length rr.bfTag, "subop_" ^ op)
+  | "fv" ->
+    let op = next c in let space = next_nats c in let fv = read_fv c in
+    let sp = Array.of_list (il space) in
+    let xs = all_assignments space in
+    let tol_eq tol a b = if tol then q_le (q_abs (q_sub a b)) (q_of_ints 1 100000) else q_eq a b in
+    if op = "getw" then begin
+      let w = next_qs c in
+      let i_flat = next_qs r in
+      let nb = List.length fv in
+      let const = if List.length w = nb + 1 then List.nth w nb else q_zero in
+      let expect x = List.fold_left (fun a (b, wi) -> q_add a (q_mul wi (o_bf_value sp b x))) const (List.combine fv (List.filteri (fun i _ -> i < nb) w)) in
+      List.iter2 (fun x got -> if not (q_eq got (expect x)) then oracle_fail "weighted_flat" "FactoredVector::getValue" "weighted value differs from the flat weighted sum") xs i_flat;
+      List.iter2 (fun x got -> if not (q_eq got (getValueW space fv (Array.to_list (Array.map nat_of_int x)) w)) then disagree "getValueW" "FactoredVector::getValue" "differ") xs i_flat;
+      (nb > 1, "fv_getw")
+    end else begin
+      (* arguments *)
+      let (expect, clause, site, model, tol) =
+        (match op with
+         | "plus" | "plusrv" | "plusc" ->
+           let b = read_bf c in
+           ((fun x -> q_add (o_flat sp fv x) (o_bf_value sp b x)), "plus_flat", "plusEqual", plusEqual space fv b, false)
+         | "minus" | "minusc" ->
+           let b = read_bf c in let cz = next_int c <> 0 in
+           ((fun x -> q_sub (o_flat sp fv x) (o_bf_value sp b x)), "minus_flat", "minusEqual", minusEqual space fv b cz, cz)
+         | "plusfv" | "plusfvrv" ->
+           let rr = read_fv c in
+           ((fun x -> q_add (o_flat sp fv x) (o_flat sp rr x)), "plus_flat", "plusEqual", plusEqualFV space fv rr, false)
+         | "minusfv" ->
+           let rr = read_fv c in let cz = next_int c <> 0 in
+           ((fun x -> q_sub (o_flat sp fv x) (o_flat sp rr x)), "minus_flat", "minusEqual", minusEqualFV space fv rr cz, cz)
+         | "scale" ->
+           let v = next_q c in
+           ((fun x -> q_mul v (o_flat sp fv x)), "weighted_flat", "FactoredVector::operator*=", scale fv v, false)
+         | "scalew" ->
+           let w = next_qs c in
+           let nb = List.length fv in
+           let const = if List.length w = nb + 1 then List.nth w nb else q_zero in
+           ((fun x -> List.fold_left (fun a (b, wi) -> q_add a (q_mul wi (o_bf_value sp b x))) const (List.combine fv (List.filteri (fun i _ -> i < nb) w))),
+            "weighted_flat", "FactoredVector::operator*=", scaleW fv w, false)
+         | _ -> failwith ("unknown fv op " ^ op)) in
+      let i_fv = read_fv r in
+      let i_flat = next_qs r in
+      (* O: the flat expansion of the result is the operation on the flat expansions of the inputs *)
+      List.iter2 (fun x got ->
+          if not (tol_eq tol got (expect x)) then
+            oracle_fail clause site ("at assignment " ^ str_ints (Array.to_list x) ^ " value " ^ string_of_q got ^ " expected " ^ string_of_q (expect x))) xs i_flat;
+      (* O: getValue is the sum of the bases at that assignment *)
+      List.iter2 (fun x got -> if not (q_eq got (o_flat sp i_fv x)) then oracle_fail "getValue_flat" "FactoredVector::getValue" "getValue differs from the sum of its bases") xs i_flat;
+      (* C *)
+      if not (fv_eq model i_fv) then disagree op site ("model " ^ str_fv model ^ " impl " ^ str_fv i_fv);
+      List.iter2 (fun x got -> if not (q_eq got (getValue space i_fv (Array.to_list (Array.map nat_of_int x)))) then disagree "getValue" "FactoredVector::getValue" "differ") xs i_flat;
+      (List.length fv > 0 && List.length xs > 1, "fv_" ^ op)
+    end
+  | "ddnpush" ->
+    let sS = next_nats c in let sA = next_nats c in
+    let pss = next_list c (fun c -> let ag = next_nats c in let fs = next_list c next_nats in { psAgents = ag; psFeatures = fs }) in
+    let g = ref (graph_new sS sA) in
+    let nS = List.length sS and nA = List.length sA in
+    let rec strictly = function a :: (b :: _ as tl) -> a < b && strictly tl | _ -> true in
+    let tag_valid n t = t <> [] && List.for_all (fun x -> x < n) t && strictly t in
+    let count = ref 0 in
+    let rejected = ref false in
+    List.iter (fun ps ->
+        let got = next r in
+        (* O: push accepts exactly the well-formed parent sets while there is room *)
+        let ag = il ps.psAgents in
+        let spA = Array.of_list (il sA) in
+        let valid = !count < nS && tag_valid nA ag
+                    && List.length ps.psFeatures = List.fold_left (fun a k -> a * spA.(k)) 1 ag
+                    && List.for_all (fun t -> tag_valid nS (il t)) ps.psFeatures in
+        if (got = "ok") <> valid then oracle_fail "ddn_push_validates" "DDNGraph::push" ("push returned " ^ got);
+        let m = (match graph_push !g ps with
+            | PushOk g' -> g := g'; "ok"
+            | PushRuntimeError -> "runtime_error"
+            | PushInvalidArgument -> "invalid_argument") in
+        if m <> got then disagree "graph_push" "DDNGraph::push" ("model " ^ m ^ " impl " ^ got);
+        if got = "ok" then incr count else rejected := true) pss;
+    let i_n = next_int r in
+    if i_n <> !count then oracle_fail "ddn_push_validates" "DDNGraph::push" "a rejected push changed the graph";
+    List.iteri (fun f _ -> let sz = next_int r in
+                 if sz <> int_of_nat (getSize !g (nat_of_int f)) then disagree "getSize" "DDNGraph::getSize" "differ") !g.gParents;
+    (!rejected, "ddnpush")
+  | "ddn" ->
+    let sS = next_nats c in let sA = next_nats c in
+    let nS = List.length sS in
+    let pss = List.init nS (fun _ -> let ag = next_nats c in let fs = next_list c next_nats in { psAgents = ag; psFeatures = fs }) in
+    let g = List.fold_left (fun g ps -> match graph_push g ps with PushOk g' -> g' | _ -> failwith "generator: invalid parent set") (graph_new sS sA) pss in
+    let ts = List.init nS (fun _ -> let rows = next_int c in let cols = next_int c in
+                            List.init rows (fun _ -> List.init cols (fun _ -> next_q c))) in
+    let spS = Array.of_list (il sS) and spA = Array.of_list (il sA) in
+    (* independent oracle: prefix sums + positional value *)
+    let radix sp tag x = let idx = ref 0 and mult = ref 1 in
+      List.iter (fun k -> idx := !idx + !mult * x.(k); mult := !mult * sp.(k)) tag; !idx in
+    let fsize sp tag = List.fold_left (fun a k -> a * sp.(k)) 1 tag in
+    let psA = Array.of_list pss in
+    let o_row f s a =
+      let ps = psA.(f) in
+      let aid = radix spA (il ps.psAgents) a in
+      let before = List.filteri (fun i _ -> i < aid) ps.psFeatures in
+      let start = List.fold_left (fun acc t -> acc + fsize spS (il t)) 0 before in
+      (aid, radix spS (il (List.nth ps.psFeatures aid)) s, start) in
+    let tsA = Array.of_list (List.map (fun m -> Array.of_list (List.map Array.of_list m)) ts) in
+    let o_prob s a s1 =
+      let p = ref q_one in
+      for f = 0 to nS - 1 do let (_, pid, start) = o_row f s a in p := q_mul !p tsA.(f).(start + pid).(s1.(f)) done; !p in
+    (* sizes and reverse lookup *)
+    for f = 0 to nS - 1 do
+      let ps = psA.(f) in
+      let i_size = next_int r in let i_psz = next_int r in
+      let sizes = List.map (fun t -> fsize spS (il t)) ps.psFeatures in
+      let total = List.fold_left ( + ) 0 sizes in
+      if i_size <> total then oracle_fail "ddn_row_layout" "DDNGraph::getSize" "size is not the sum of the parent-set sizes";
+      if i_psz <> List.length sizes then oracle_fail "ddn_row_layout" "DDNGraph::getPartialSize" "differ";
+      List.iteri (fun a sz -> let got = next_int r in
+                   if got <> sz then oracle_fail "ddn_row_layout" "DDNGraph::getPartialSize" "differ";
+                   if int_of_nat (getPartialSizeA g (nat_of_int f) (nat_of_int a)) <> got then disagree "getPartialSizeA" "DDNGraph::getPartialSize" "differ") sizes;
+      if int_of_nat (getSize g (nat_of_int f)) <> i_size then disagree "getSize" "DDNGraph::getSize" "differ";
+      for j = 0 to total - 1 do
+        let i_p = next_int r in let i_a = next_int r in
+        (* O: (p, a) is the unique pair with start[a] + p = j, p < size[a] *)
+        let start = List.fold_left ( + ) 0 (List.filteri (fun i _ -> i < i_a) sizes) in
+        if i_a >= List.length sizes || start + i_p <> j || i_p >= List.nth sizes i_a then
+          oracle_fail "ddn_row_layout" "DDNGraph::getIds" "reverse lookup is not the inverse of getId";
+        let (mp, ma) = getIdsRev g (nat_of_int f) (nat_of_int j) in
+        if int_of_nat mp <> i_p || int_of_nat ma <> i_a then disagree "getIdsRev" "DDNGraph::getIds" "differ"
+      done
+    done;
+    let xsS = all_assignments sS in
+    let nq = next_int c in
+    for _q = 1 to nq do
+      let s = next_nats c in let a = next_nats c in
+      let sa = Array.of_list (il s) and aa = Array.of_list (il a) in
+      for f = 0 to nS - 1 do
+        let i_p = next_int r in let i_aid = next_int r in let i_id = next_int r in let i_idp = next_int r in
+        let (aid, pid, start) = o_row f sa aa in
+        if i_p <> pid || i_aid <> aid || i_id <> start + pid || i_idp <> i_id then
+          oracle_fail "ddn_row_layout" "DDNGraph::getId" "row is not startIds[feature][actionId] + parentId";
+        let (mp, ma) = getIds g (nat_of_int f) s a in
+        if int_of_nat mp <> i_p || int_of_nat ma <> i_aid then disagree "getIds" "DDNGraph::getIds" "differ";
+        if int_of_nat (getId g (nat_of_int f) s a) <> i_id then disagree "getId" "DDNGraph::getId" "differ";
+        let full l = List.init (List.length l) nat_of_int in
+        if int_of_nat (getIdP g (nat_of_int f) (full s) s (full a) a) <> i_idp then disagree "getIdP" "DDNGraph::getId" "differ"
+      done;
+      let i_probs = next_qs r in
+      let i_pp = next_q r in
+      let total = ref q_zero in
+      List.iter2 (fun s1 got ->
+          let e = o_prob sa aa s1 in
+          if not (q_eq got e) then oracle_fail "ddn_product" "DDN::getTransitionProbability" ("probability " ^ string_of_q got ^ " is not the product of the local probabilities " ^ string_of_q e);
+          total := q_add !total got) xsS i_probs;
+      if not (q_eq !total q_one) then oracle_fail "ddn_sums_to_one" "DDN::getTransitionProbability" ("probabilities sum to " ^ string_of_q !total);
+      List.iter2 (fun s1 got ->
+          let m = getTransitionProbability g ts s a (List.map nat_of_int (Array.to_list s1)) in
+          if not (q_eq got m) then disagree "getTransitionProbability" "DDN::getTransitionProbability" "differ") xsS i_probs;
+      let s1 = List.nth xsS (((_q - 1) * 7 + 3) mod (List.length xsS)) in
+      if not (q_eq i_pp (o_prob sa aa s1)) then oracle_fail "ddn_product" "DDN::getTransitionProbability(Partial)" "partial overload differs on a full assignment"
+    done;
+    let b = read_bf c in
+    let i_tag = next_nats r in let i_atag = next_nats r in
+    let rows = next_int r in let cols = next_int r in
+    let i_vals = List.init rows (fun _ -> List.init cols (fun _ -> next_q r)) in
+    let vA = Array.of_list (List.map Array.of_list i_vals) in
+    (* O: the back-projection is the expected next-step value of the basis, at every full (s, a) *)
+    let xsA = all_assignments sA in
+    List.iter (fun s -> List.iter (fun a ->
+        let expect = List.fold_left (fun acc s1 -> q_add acc (q_mul (o_prob s a s1) (o_bf_value spS b s1))) q_zero xsS in
+        let ri = radix spS (il i_tag) s and ci = radix spA (il i_atag) a in
+        if ri >= rows || ci >= cols then oracle_fail "backproject_is_expectation" "backProject" "matrix too small";
+        if not (q_eq vA.(ri).(ci) expect) then
+          oracle_fail "backproject_is_expectation" "backProject" ("entry " ^ string_of_q vA.(ri).(ci) ^ " expected " ^ string_of_q expect)) xsA) xsS;
+    let m = backProject g ts b in
+    if not (nats_eq m.bmTag i_tag && nats_eq m.bmActionTag i_atag) then disagree "backProject" "backProject" "tags differ";
+    if not (List.length m.bmVals = rows && List.for_all2 qs_eq m.bmVals i_vals) then disagree "backProject" "backProject" "values differ";
+    (nS > 1, "ddn")
   | k -> failwith ("unknown case kind " ^ k)
 
 let () = main_loop judge
